@@ -359,7 +359,7 @@ func c01R4(c *Ctx) {
 		cbNonNil := false
 		for k, v := range facts {
 			switch {
-			case k.op == token.EQL && k.y == nil && endsInField(k.x, fCertVerify, false) && v:
+			case k.op == token.EQL && k.y == nil && (endsInField(k.x, fCertVerify, false) || isPolicyParam(fn, k.x)) && v:
 				certVerifyNil = true
 			case k.op == token.ILLEGAL && endsInField(k.x, fSkip, false) && v:
 				skip = true
@@ -576,6 +576,22 @@ func c01R6(c *Ctx, live map[*ssa.Function]bool) {
 		}
 		call, _ := fromCall(args[1])
 		if call == nil || !authReaders[calleeID(call)] {
+			// or: the state object that an authenticating reader, called here and dominating this site, filled
+			call = nil
+			inner := map[string]bool{hopID("transport", "Server", "readPQClientRequestHidden"): true, hopID("transport", "Server", "readPQClientAuth"): true}
+			eachInstr(caller, func(ins ssa.Instruction) {
+				rc, ok := ins.(*ssa.Call)
+				if !ok || !inner[calleeID(rc)] || !dominatesInstr(rc, e.Site) {
+					return
+				}
+				for _, a := range rc.Call.Args {
+					if lookThrough(a) == lookThrough(args[1]) {
+						call = rc
+					}
+				}
+			})
+		}
+		if call == nil {
 			c.Fail("C01.R6", cons, P.InstrPos(e.Site), "finishHandshake is called with a handshake state that is not the result of readPQClientAuth / handlePQClientRequestHidden")
 			continue
 		}
@@ -597,12 +613,23 @@ func c01R6(c *Ctx, live map[*ssa.Function]bool) {
 			hsArg := cs.Common().Args[1]
 			call, _ := fromCall(hsArg)
 			if call == nil || calleeID(call) != hopID("transport", "Server", "handlePQClientRequestHidden") {
-				continue
+				// no wrapper: the hidden arm is where readPacket calls the hidden-request reader on this state
+				hidden := false
+				for _, rs := range callSitesIn(rp, false, hopID("transport", "Server", "readPQClientRequestHidden")) {
+					for _, a := range rs.Common().Args {
+						if lookThrough(a) == lookThrough(hsArg) {
+							hidden = true
+						}
+					}
+				}
+				if !hidden {
+					continue
+				}
 			}
 			// find the writePQServerResponseHidden call on the same hs
 			var w *ssa.Call
 			for _, ws := range callSitesIn(rp, false, hopID("transport", "Server", "writePQServerResponseHidden")) {
-				if wc, ok := ws.(*ssa.Call); ok && len(wc.Call.Args) >= 2 && wc.Call.Args[1] == hsArg {
+				if wc, ok := ws.(*ssa.Call); ok && len(wc.Call.Args) >= 2 && (wc.Call.Args[1] == hsArg || lookThrough(wc.Call.Args[1]) == lookThrough(hsArg)) {
 					w = wc
 				}
 			}
@@ -696,4 +723,14 @@ func c01R6(c *Ctx, live map[*ssa.Function]bool) {
 	default:
 		c.OK("C01.R6", cons, P.Pos(chl.Pos()), fmt.Sprintf("Open/listen only after a nil begin*Handshake (%d paths)", n))
 	}
+}
+
+// isPolicyParam: v is a *VerifyConfig parameter of fn (the policy handed in instead of read from hs.certVerify).
+func isPolicyParam(fn *ssa.Function, v ssa.Value) bool {
+	k := paramIndex(fn, v)
+	if k < 0 {
+		return false
+	}
+	ts := types.TypeString(fn.Params[k].Type(), nil)
+	return strings.HasPrefix(ts, "*") && strings.HasSuffix(ts, "transport.VerifyConfig")
 }
